@@ -81,11 +81,20 @@ def run(ctx):
         heads = cf.loop_heads()
         ex = pa.Explorer(prog, cf, max_visits=1)
         n = 0
+        # the counter is the local whose value is returned as Ok(Some(count)) (whatever it is called)
+        fcf = fl.Flow(cf, prog)
+        counters = set()
+        for bb_, i_, s_ in cf.all_stmts():
+            if s_.s == "assign" and s_.rv.rv == "aggregate" and s_.rv.variant == "Some" and s_.rv.ops and s_.rv.ops[0].place is not None:
+                rl = fcf.root_local(s_.rv.ops[0])
+                if rl is not None and rl.is_local():
+                    counters.add(rl.local)
+        ctx.check(len(counters) == 1, "C20-b", cf.key, "one counter local is returned as Some(count)", "locals returned inside Some(..): %s" % sorted(counters), "")
         for h in heads:
             for p in ex.paths(start=h, stop_at=heads):
                 inc = [e for e in p.events if e[0] == "store" or e[0] == "assert"]
                 # `evictable += 1` is an assignment to a user local: look at the env for the increment
-                incs = [l for l, v in p.env.items() if cf.var_name(l) == "evictable" and v[0] in ("proj", "binop") and "Add" in pa.vfmt(v)]
+                incs = [l for l, v in p.env.items() if l in counters and v[0] in ("proj", "binop") and "Add" in pa.vfmt(v)]
                 if p.end != "stop" or not incs:
                     continue
                 n += 1
@@ -118,6 +127,32 @@ def run(ctx):
             nf = [x for x in nf if x and expr.fold(x[2]) == 0]
             ok = ok and any(x[1] == ">" for x in nf) and p.has_call("HashMap<K, V, S>::get", "::get")
         ctx.check(ok, "C20-b", it.key, "tracked = reference count present and > 0", "is_tracked does not test `count > 0` of the tracked map", "")
+
+    # every dynamic-table index the encoder hands out for a field section is recorded as a reference (track_ref) on the same
+    # path: an untracked reference is invisible to can_free, and the entry can be evicted while the section is unacknowledged
+    DE = "h3::qpack::dynamic::DynamicTableEncoder::"
+    REFS = {"Relative": 1, "PostBase": 1, "Inserted": 1, "InsertedWithStaticNameRef": 1, "InsertedWithNameRef": 2, "Duplicated": 2}
+    n_ref = 0
+    for key in (DE + "lookup_result", DE + "insert"):
+        b = ru.need(ctx, "C20-b", key)
+        if not b:
+            continue
+        for p in [p for p in ru.all_paths(ctx, "C20-b", b, max_visits=1) if p.end == "return"]:
+            r = p.ret
+            while r is not None and r[0] == "agg" and r[2] in ("Ok", "Some") and r[3]:
+                r = r[3][0]
+            if r is None or r[0] != "agg" or r[2] not in REFS:
+                continue
+            n_ref += 1
+            names = [f_["name"] for v_ in prog.adts[r[1]]["variants"] if v_["name"] == r[2] for f_ in v_["fields"]]
+            fld = dict(zip(names, r[3]))
+            tracked = [e[3][1] for e in p.calls(DE + "track_ref")]
+            ok = fld.get("absolute") in tracked and len(tracked) >= REFS[r[2]]
+            ctx.check(ok, "C20-b", key, "%s: every index handed out is tracked (%d reference%s)" % (r[2], REFS[r[2]], "s" if REFS[r[2]] > 1 else ""),
+                      "%s returns %s with absolute index %s but tracks %s on that path: the reference is not counted, so the entry may be evicted "
+                      "while the field section that uses it is still unacknowledged (the late section then fails or mis-decodes)"
+                      % (key.rsplit("::", 1)[-1], r[2], pa.vfmt(fld.get("absolute"))[:60] if fld.get("absolute") else "?", [pa.vfmt(t)[:50] for t in tracked]), "", None, p.describe())
+    ctx.floor("C20-b", "encoder results carrying a dynamic index", n_ref, 6)
 
     # ------------------------------------------------------------ C20-c
     first_byte_table(ctx, "C20-c", Q + "stream::EncoderInstruction::decode",
